@@ -19,6 +19,12 @@ Record entry := mkEntry {
   e_ret_ptr : bool                  (* the entry returns a pointer, not an int code *)
 }.
 
+(* time-out related actions of a body, as extracted by the translator (in source order) *)
+Inductive tcall :=
+| TCall (helper : string)                       (* reset_timeout() / reset_deterministic_timeout() *)
+| TNew (slot kind : string) (c : ctype)         (* slot = new Watchdog/Weightwatch(..., e) with `static c e;` *)
+| TDelete (slot : string).                      (* delete slot; slot = nullptr; *)
+
 Inductive outcome := Returns (v : Z) | Throws (e : exn).
 
 (* what reaches the C caller *)
